@@ -38,6 +38,9 @@ type pairMon struct {
 	projCache map[string][]string
 	// look answers reference filters when projecting (nil: none declared)
 	look model.RefLookup
+	// ambiguousCommit: in the current step the harness dropped the connection right
+	// after the server executed a COMMIT (the client cannot know the outcome)
+	ambiguousCommit bool
 	// noContent: the rows of this pair depend on other tables (reference filters);
 	// the state invariant then checks placement only, not content
 	noContent bool
@@ -257,10 +260,7 @@ func (pm *pairMon) stepVerdict(res *scen.StepResult, plan string, batch int, det
 		p := pm.pos
 		if !pm.hasPos {
 			// first commit of the pair: previous position is the block before the first one fetched
-			lo := cur.num
-			if n, ok := lastHashLookup(res.Served); ok && n+1 <= cur.num {
-				lo = n + 1
-			}
+			lo := firstBlockOf(pm.start, res.Served, cur.num)
 			p = lo - 1
 			pm.first = lo
 		}
@@ -319,18 +319,34 @@ func (pm *pairMon) stepVerdict(res *scen.StepResult, plan string, batch int, det
 	if res.Err == nil && ncommits != 1 {
 		c.Violate(pm.kp+"nil-step-without-single-commit", merge(detail, map[string]any{"commits": ncommits}), "a step returned nil but committed %d times", ncommits)
 	}
-	if res.Err != nil && ncommits > 0 && !ambiguousCommitError(res) {
+	if res.Err != nil && ncommits > 0 && !pm.ambiguousCommit {
 		c.Violate(pm.kp+"failed-step-committed", merge(detail, map[string]any{"err": res.Err.Error(), "commits": ncommits}), "a step returned %v although it committed rows/position", res.Err)
 	}
 }
 
-// ambiguousCommitError: the connection was dropped after the server executed
-// COMMIT (the client cannot know the outcome).
-func ambiguousCommitError(res *scen.StepResult) bool {
-	return res.Err != nil && strings.Contains(res.Err.Error(), "committing task tx")
+// firstBlockOf infers the first block of a pair that has no recorded position,
+// from what the statement says rather than from request shapes where possible:
+// the configured start; without one, the head the source announced in this step;
+// failing that, the block after the last single block lookup (how the position
+// before the first block is learnt); failing that, fallback.
+func firstBlockOf(start uint64, served []simnode.Served, fallback uint64) uint64 {
+	if start > 0 && start <= fallback {
+		return start
+	}
+	if start == 0 {
+		for _, s := range served {
+			if !s.Poller && s.Method == "eth_getBlockByNumber" && s.Arg == "latest" && s.Failed == "" && len(s.Blocks) == 1 && s.Blocks[0].Num <= fallback {
+				return s.Blocks[0].Num
+			}
+		}
+	}
+	if n, ok := lastHashLookup(served); ok && n+1 <= fallback {
+		return n + 1
+	}
+	return fallback
 }
 
-// lastHashLookup finds the last single (non-batched) eth_getBlockByNumber(n,true)
+// lastHashLookup finds the last single (non-batched) eth_getBlockByNumber(n,…)
 // of a step: that is how a pair without a recorded position asks for the hash of
 // the block before its first one, so its first block is n+1.
 func lastHashLookup(served []simnode.Served) (uint64, bool) {
@@ -339,7 +355,7 @@ func lastHashLookup(served []simnode.Served) (uint64, bool) {
 		ok bool
 	)
 	for _, s := range served {
-		if s.Poller || s.Batched || s.Method != "eth_getBlockByNumber" || s.Arg == "latest" || !s.Full {
+		if s.Poller || s.Batched || s.Method != "eth_getBlockByNumber" || s.Arg == "latest" {
 			continue
 		}
 		var v uint64
